@@ -22,7 +22,7 @@ from concurrent.futures import ThreadPoolExecutor
 import vp
 
 KF_ALL = ["KF_XuperSignSingleKey", "KF_MarkedRefSoftAccept", "KF_GhostAccountInitiator", "KF_V1OmitsHDInfo",
-          "KF_V12OmitsEmpty", "KF_MarkedFlagUncovered"]
+          "KF_V12OmitsEmpty", "KF_MarkedFlagUncovered", "KF_CoinbaseRider"]
 OWN_KNOWN = os.path.join(vp.VERIF, "findings", "C07.known")
 BATCH = 25000
 
@@ -93,13 +93,13 @@ def validate(run, trace, name, kf_consts, known, ops_of):
     if div.get("op") in ("tok", "ref"):
         raise vp.Undecided("the encoder grammar of the specification no longer describes the code (%s line %s: expected %s, real %s)"
                            % (div.get("op"), json.dumps({k: ev.get(k) for k in ("v", "signs", "st")}), json.dumps(div.get("exp"))[:300], json.dumps(div.get("act"))[:300]))
-    what = {"case": "State.VerifyTx on the concretised transaction", "mut": "State.VerifyTx after the field mutation",
+    what = {"case": "State.VerifyTx on the concretised transaction", "cb": "peer block whose coinbase transaction carries a rider (ConfirmBlock + PlayAndRepost)", "mut": "State.VerifyTx after the field mutation",
             "pair": "real digests / ids of two transactions that differ in a covered field",
             "shift": "real digests / ids after moving a byte across a field boundary"}.get(div.get("op"), div.get("op"))
     desc = "%s: specification allows %s, real code: %s; %s" % (what, json.dumps(div.get("exp")), json.dumps(div.get("act")),
                                                                json.dumps({k: v for k, v in ev.items() if k not in ("tr", "i")}, sort_keys=True)[:900])
     run.violation(desc, {"property": "C07", "driver": "c07 " + ops_of, "seed": run.seed, "tier": run.tier, "known_deviations_enabled": sorted(kf_consts),
-                         "program": [{k: v for k, v in ev.items() if k in ("op", "t", "m", "hon", "v", "sec", "a", "b", "j")}],
+                         "program": [{k: v for k, v in ev.items() if k in ("op", "t", "m", "r", "hon", "v", "sec", "a", "b", "j")}],
                          "first_unexplained_event": ev, "expected": div.get("exp"), "actual": div.get("act")})
     return False
 
@@ -129,7 +129,7 @@ def check(run):
         run.seed = rp.get("seed", run.seed)
         ops = rp["program"]
         stats = {}
-        if ops and ops[0].get("op") in ("case", "mut"):
+        if ops and ops[0].get("op") in ("case", "mut", "cb"):
             run_cases(run, ops, "replay", kf_consts, known, stats)
         else:
             raise vp.Undecided("replay of encoder pairs: run the check (the pair is enumerated deterministically)")
@@ -222,6 +222,7 @@ def check(run):
            "schema_fields_walked": (len(real), len(table)), "schema_fields_touched": (len(table) - len(untouched), len(table)),
            "grammar_token_streams": (stats.get("gram_tok_lines", 0), 200), "grammar_v3_preimages": (stats.get("gram_ref_lines", 0), 200),
            "grammar_structure_pairs": (stats.get("gram_pair_lines", 0), 20000)}
+    req["coinbase_blocks_played"] = (sum(v for k, v in stats.get("by_res", {}).items() if k.startswith("cb:")), 2)
     for f in ("address", "multi-address", "multi-account-uris", "account-initiator", "account-initiator+signers", "xsign0", "xsign2"):
         req["form_" + f] = (by.get(f, 0), 250 * m)
     for v in ("flip", "clear", "append", "inc", "drop", "dup", "swap", "add", "nil", "addkey", "delkey", "chval"):
